@@ -177,7 +177,11 @@ def bit_str(b):
 def atom_str(a):
     if a[0] == "D":
         return "buf[%s].%d" % (mklin(a[1], a[2]), a[3])
-    return "%s.%d" % (a[0], a[1])
+    if a[0] == "NEG":
+        return "neg(..).%d" % a[2]
+    if a[0] == "CRC":
+        return "crc.%d" % a[2]
+    return "%s.%s" % (a[0], a[1])
 
 
 class BV(object):
